@@ -307,7 +307,7 @@ def feed(plan, blobs):
     return p
 
 # ---------------------------------------------------------------------------------------------------- canonical, comparable history
-STRIP = ("h", "h2", "hs", "ho", "hk", "hw", "hu", "hb", "n", "t", "p", "e", "op", "edges", "files", "slot", "path", "serial", "utc", "cap", "fsn", "ny", "rng", "touched", "inlen", "unres", "tree", "scan", "slots", "sessions", "objects", "free_pub", "free_priv", "total_pub", "total_priv")
+STRIP = ("h", "h2", "hs", "ho", "hk", "hw", "hu", "hb", "n", "t", "p", "e", "op", "edges", "files", "slot", "path", "serial", "utc", "cap", "fsn", "ny", "wmax", "ym", "rng", "touched", "inlen", "unres", "tree", "scan", "slots", "sessions", "objects", "free_pub", "free_priv", "total_pub", "total_priv")
 VALUE_ATTRS = {K.CKA_VALUE, K.CKA_CHECK_VALUE, K.CKA_EC_POINT, K.CKA_MODULUS, K.CKA_PUBLIC_EXPONENT, K.CKA_PRIVATE_EXPONENT}
 
 def canon(plan, r):
